@@ -404,6 +404,74 @@ func genJSONCut(c *hmain.Ctx) {
 		}
 		c.Do("json-cut-aliased", 8, hx.L(append(shuffled, hx.S(doc))...), true)
 	}
+	// 13..24 limited strings at once, all over their limits (so far at most 6 paths and 3 cuts): slices.SortFunc on
+	// d.cutPositions (json.go:128-135) is an insertion sort up to 12 elements and pdqsort beyond, which is not stable; some
+	// strings are named twice (s3 and \s3) with equal and with different limits, so equal keys do occur. Would expose: a
+	// comparison function that is not a strict order on the positions, a dedup of aliased positions that relies on a
+	// stable sort, a cut applied to positions that are not in descending order.
+	for i := 0; i < 400*c.Scale; i++ {
+		n := r.Range(13, 24)
+		var doc strings.Builder
+		doc.WriteString("{")
+		var ps []hx.Sx
+		var names []string
+		for k := 0; k < n; k++ {
+			v, lv := val(6, 20)
+			name := fmt.Sprintf("s%d", k)
+			if k > 0 {
+				doc.WriteString(",")
+			}
+			if k == n/2 {
+				f, lf := val(6, 14)
+				doc.WriteString(`"o":{"f":` + f + `,"g":7},`)
+				ps = append(ps, hx.L(hx.S("o.f"), hx.I(r.Intn(lf/2+1))))
+				names = append(names, "o.f")
+			}
+			doc.WriteString(`"` + name + `":` + v)
+			limit := r.Intn(lv/2 + 1)
+			ps = append(ps, hx.L(hx.S(name), hx.I(limit)))
+			names = append(names, name)
+			if r.Chance(1, 4) { // the same string under a second name
+				l2 := limit
+				if r.Bool() {
+					l2 = r.Intn(lv + 2)
+				}
+				ps = append(ps, hx.L(hx.S(`\`+name), hx.I(l2)))
+				names = append(names, `\`+name)
+			}
+		}
+		doc.WriteString("}")
+		shuffled := make([]hx.Sx, 0, len(ps))
+		for _, k := range perm(len(ps)) {
+			shuffled = append(shuffled, ps[k])
+		}
+		for _, p := range names {
+			checkGjson(c, doc.String(), p)
+		}
+		c.W.Count(fmt.Sprintf("json_cut_many_paths_%d", len(ps)))
+		c.Do("json-cut-many", 8, hx.L(append(shuffled, hx.S(doc.String()))...), true)
+	}
+	// nesting: gjson.ValidBytes (json.go:78) is recursive and the documents so far were at most 2 levels deep; 3 .. 10001
+	// levels of arrays / objects between two limited strings (encoding/json.Valid stops at 10000: beyond that the document
+	// counts as invalid before and after, the cut must still be framed). Would expose: a validity pre-check that gives up
+	// (or blows the stack) on deep input and lets the cut run on a document it did not validate, positions computed wrongly
+	// behind a long run of brackets.
+	for _, depth := range []int{3, 10, 100, 1000, 9999, 10000, 10001} {
+		if depth > 1000 && depth < 10001 && c.Scale == 1 {
+			continue
+		}
+		for _, open := range []string{"[", `{"k":`} {
+			cl := "]"
+			if open != "[" {
+				cl = "}"
+			}
+			doc := `{"a":"0123456789","d":` + strings.Repeat(open, depth) + `"x"` + strings.Repeat(cl, depth) + `,"z":"tail-tail"}`
+			checkGjson(c, doc, "a")
+			checkGjson(c, doc, "z")
+			c.Do("json-cut-deep", 8, hx.L(hx.L(hx.S("a"), hx.I(3)), hx.S(doc)), true)
+			c.Do("json-cut-deep", 8, hx.L(hx.L(hx.S("z"), hx.I(4)), hx.L(hx.S("a"), hx.I(2)), hx.S(doc)), true)
+		}
+	}
 	// ONE decoder used by several goroutines at once (a pipeline has one decoder and Pipeline.In is called from every
 	// input worker): every line must be cut exactly as it is when the decoder is used alone.  Each goroutine repeats its
 	// lines; the recorded observable is the first one that differs from the line's first result, else that first result.
